@@ -318,6 +318,27 @@ func (j *judge) each(i int, op *Op, root string, p *Proj, o *Obs, prev *Obs) {
 		j.judgeDry(i, op, o, prev)
 		return
 	}
+	// C01: what a glob declares as sources is what the pattern selects: every file that matches an include pattern and no
+	// exclude pattern is a dependency of the target (its record lists it), wherever the file lies
+	if o.Exit == exitOK && !o.Crashed && j.prop == "C01" {
+		for l := range p.closure(op.Target) {
+			t := p.tgt(l)
+			rec, ok := o.Records[l]
+			if t == nil || t.Glob == "" || !ok || rec.Rerun {
+				continue
+			}
+			for _, s := range p.srcsOf(t) {
+				if realPath(s) != s {
+					continue // (names that are not valid UTF-8 are compared through the model)
+				}
+				if _, listed := rec.Deps[sourceLabelOf(s)]; !listed {
+					j.viol("glob-loses-source", i, "%s has sources=glob([%q], exclude=[%q]); %s matches the include pattern and no exclude pattern, yet after a successful build the record of %s does not list it as a dependency",
+						l, t.Glob, t.GlobEx, s, l)
+					return
+				}
+			}
+		}
+	}
 	// C01: after every successful build, the generated files of the closure are those of a from-scratch build
 	if o.Exit == exitOK && !o.Crashed && (j.prop == "C01" || j.prop == "C03") {
 		clean, err := j.r.cleanBuild(root, p, op.Target)
